@@ -1,6 +1,6 @@
 #!/bin/sh
 # run every claimed check (quick tier unless $1 given) sequentially; print one status line each
-cd /verif || exit 2
+cd "$(dirname "$0")/.." || exit 2
 tier=${1:-quick}
 mkdir -p .work/all
 for p in $(python3 -c "import json; print(' '.join(c['property_id'] for c in json.load(open('MANIFEST.json'))['checks']))"); do
